@@ -6,6 +6,7 @@
 mod gen;
 mod ledger;
 mod model;
+mod pairs;
 
 use std::io::{BufRead, BufWriter, Write};
 
@@ -90,6 +91,32 @@ fn main() {
                 }
             }
             println!("segments {n}");
+        }
+        "pairs" => {
+            // --kind opening|split : derive paired executions from base cases; writes the pair records
+            // (for Trace_Pair) and, separately, every recorded segment (for Trace_Ledger)
+            let kind = arg(&args, "--kind").expect("--kind");
+            let seed: u64 = arg(&args, "--seed").and_then(|s| s.parse().ok()).unwrap_or(1);
+            let cases = read_cases(&arg(&args, "--in").expect("--in"));
+            let out = arg(&args, "--out").expect("--out");
+            let segs_out = arg(&args, "--segments").expect("--segments");
+            let recs = par_map(&cases, threads, |c| match kind.as_str() {
+                "opening" => pairs::opening_pairs(c),
+                "split" => pairs::split_pairs(c, seed),
+                _ => panic!("kind"),
+            });
+            let mut w = BufWriter::new(std::fs::File::create(out).unwrap());
+            let mut ws = BufWriter::new(std::fs::File::create(segs_out).unwrap());
+            let mut n = 0usize;
+            for rv in recs {
+                for r in rv {
+                    writeln!(w, "{}", serde_json::to_string(&r).unwrap()).unwrap();
+                    writeln!(ws, "{}", serde_json::to_string(&r["a"]).unwrap()).unwrap();
+                    writeln!(ws, "{}", serde_json::to_string(&r["b"]).unwrap()).unwrap();
+                    n += 1;
+                }
+            }
+            println!("pairs {n}");
         }
         other => {
             eprintln!("acbverif: unknown sub-command {other}");
